@@ -513,6 +513,36 @@ def run_unit_with_retries(u, info, repo, wd, tier, seed):
         else:
             r['undecided'].append('rlimit exceeded after retry ladder in: ' + ', '.join(sorted({f['function'] for f in r['failures']})))
             r['failures'] = []
+    # Failures in UNCHANGED functions.  Verification is modular: an unchanged function is checked against its own (unchanged) body, the
+    # contracts of its callees and the spec functions, which are template text.  Unless an item whose body other obligations can see
+    # changed (a type definition, executable text also used as a spec function), its obligations are textually the ones discharged on the
+    # baseline tree, so a failure can only be solver instability: the same query sits in a different file (a changed neighbour, a fallback
+    # emission) and Z3 takes another path.  Such failures are re-tried under other seeds and a higher rlimit.  A proof found once is a
+    # proof; an obligation that stays unproved is reported as UNDECIDED (unstable), never as a violation.
+    PSEUDO = ('unverifiable', 'assumed_changed', 'bounded')
+    def unstable(x):
+        dep_changed = any(reg.get('changed_since_baseline') and (reg['mode'] == 'definition' or reg.get('spec_visible')) for reg in x['regions'])
+        if dep_changed:
+            return []
+        return [f for f in x['failures'] if not f.get('changed_since_baseline') and f['kind'] not in PSEUDO]
+    us = unstable(r)
+    if us and any(reg.get('changed_since_baseline') for reg in r['regions']):
+        still = {obligation_id(f) for f in us}
+        for mult, sd in ((2, 1), (4, 2), (4, 3)):
+            r2 = verify_unit(u, info, repo, wd, seed=sd, rlimit_mult=mult)
+            attempts.append(r2)
+            if any(x.startswith('verus front-end error') or x.startswith('assemble') for x in r2['undecided']):
+                continue
+            still &= {obligation_id(f) for f in r2['failures']}
+            if not still:
+                break
+        dropped = sorted({obligation_id(f) for f in us} - still)
+        if dropped:
+            r['notes'] = r.get('notes', []) + ['unstable proofs of unchanged functions, discharged on a retry (other seed / rlimit): ' + ', '.join(dropped)]
+        if still:
+            r['undecided'].append('unstable: obligations of UNCHANGED functions stay unproved next to a changed function (not a property of the code): '
+                                  + ', '.join(sorted(still)))
+        r['failures'] = [f for f in r['failures'] if f not in us]
     r['attempts'] = len(attempts)
     r['dependency_of'] = info.get('dependency_of')
     if tier == 'thorough' and not r['failures'] and not r['undecided']:
